@@ -245,19 +245,29 @@ def coq_bytes(b):
 
 
 def coq_efile(g):
-    """mkEf k n size segsize segs blocks (blocks[segment][share])."""
+    """mkEf k n size segsize segs blocks (blocks[segment][share]).  Literals cost ~5 ms per byte to
+    elaborate, so with k = 1 (every block is the segment) the segments are written once."""
     segs = T.lst([coq_bytes(s) for s in g.segs])
+    if g.k == 1 and all(g.blocks[i][j] == g.segs[j] for i in range(g.n) for j in range(g.nseg)):
+        return "(let segs := %s in mkEf 1 %s %s %s segs (map (fun s => repeat s %d) segs))" % (segs, T.N(g.n), T.N(g.size), T.N(g.segsize), g.n)
     blocks = T.lst([T.lst([coq_bytes(g.blocks[i][j]) for i in range(g.n)]) for j in range(g.nseg)])
     return "(mkEf %s %s %s %s %s %s)" % (T.N(g.k), T.N(g.n), T.N(g.size), T.N(g.segsize), segs, blocks)
 
 
 def preamble_for(name, g):
-    return ("Definition %s : efile := %s.\n"
-            "Definition %s_cap := sym_g_cap [] %s.\n"
-            "Definition %s_bn (i k : Z) : hs := node_of hs HPad (sym_g_bht %s i) k.\n"
-            "Definition %s_sn (k : Z) : hs := node_of hs HPad (sym_g_sht %s) k.\n"
-            "Definition %s_cn (k : Z) : hs := node_of hs HPad (sym_g_cht %s) k.\n"
-            "Definition %s_ueb : ub := UbOk (sym_g_ueb %s).\n") % (name, coq_efile(g), name, name, name, name, name, name, name, name, name, name)
+    """The genuine file and its trees, computed once per file (normal forms) and shared by all cases."""
+    return ("Definition %(n)s : efile := Eval vm_compute in %(ef)s.\n"
+            "Definition %(n)s_bhts : list (list hs) := Eval vm_compute in map (fun i => sym_g_bht %(n)s (Z.of_nat i)) (seq 0 %(N)d).\n"
+            "Definition %(n)s_sht : list hs := Eval vm_compute in sym_g_sht %(n)s.\n"
+            "Definition %(n)s_cht : list hs := Eval vm_compute in sym_g_cht %(n)s.\n"
+            "Definition %(n)s_cap := Eval vm_compute in sym_g_cap [] %(n)s.\n"
+            "Definition %(n)s_bn (i k : Z) : hs := nth (Z.to_nat k) (nth (Z.to_nat i) %(n)s_bhts []) (HPad 0).\n"
+            "Definition %(n)s_sn (k : Z) : hs := nth (Z.to_nat k) %(n)s_sht (HPad 0).\n"
+            "Definition %(n)s_cn (k : Z) : hs := nth (Z.to_nat k) %(n)s_cht (HPad 0).\n"
+            "Definition %(n)s_ueb : ub := Eval vm_compute in UbOk (sym_g_ueb %(n)s).\n"
+            "Definition %(n)s_blk (i j : Z) : list N := gblock %(n)s i j.\n"
+            "Definition %(n)s_pseg (j : Z) : list N := pad_to %(pad)d (gsegment %(n)s j).\n"
+            ) % {"n": name, "ef": coq_efile(g), "N": g.n, "pad": g.sz["tail_segment_padded"]}
 
 
 class Namer(object):
@@ -266,6 +276,10 @@ class Namer(object):
     def __init__(self, name, g):
         self.table = {}
         self.junk = {}
+        self.blocks = {}
+        for i in range(g.n):
+            for j in range(g.nseg):
+                self.blocks.setdefault(g.blocks[i][j], "(%s_blk %s %s)" % (name, T.Z(i), T.Z(j)))
         for i in range(g.n):
             for idx, h in enumerate(g.bht[i]):
                 self.table.setdefault(h, "(%s_bn %s %s)" % (name, T.Z(i), T.Z(idx)))
@@ -274,6 +288,9 @@ class Namer(object):
         for idx, h in enumerate(g.sht):
             # block tree roots are both bn(i,0) and sn(leaf): equal terms in the model too
             self.table.setdefault(h, "(%s_sn %s)" % (name, T.Z(idx)))
+
+    def block(self, b):
+        return self.blocks.get(b) or coq_bytes(b)
 
     def __call__(self, h):
         if h in self.table:
@@ -352,5 +369,433 @@ def coq_share(view, g, name, namer):
         sh = "(Some %s)" % T.lst(["(%s, %s)" % (T.Z(i), namer(h)) for i, h in view["share_hashes"]])
     bh = T.lst(["(%s, %s)" % (T.Z(i), namer(h)) for i, h in sorted(view["block_hashes"].items())])
     ch = T.lst(["(%s, %s)" % (T.Z(i), namer(h)) for i, h in sorted(view["ct_hashes"].items())])
-    bl = T.lst(["(%s, %s)" % (T.Z(j), coq_bytes(b)) for j, b in sorted(view["blocks"].items())])
+    bl = T.lst(["(%s, %s)" % (T.Z(j), namer.block(b)) for j, b in sorted(view["blocks"].items())])
     return "(mkShare %s %s %s %s %s %s %s)" % (T.N(view["version"]), off, ueb, sh, bh, ch, bl)
+
+
+# ---- running the real downloader -----------------------------------------------------------------------
+class Recorder(object):
+    """IConsumer that records every write (what reached the application before the read ended)."""
+
+    def __init__(self):
+        from zope.interface import directlyProvides
+        from twisted.internet.interfaces import IConsumer
+        directlyProvides(self, IConsumer)
+        self.chunks = []
+        self.done = False
+
+    def registerProducer(self, p, streaming):
+        self.producer = p
+        if streaming:
+            p.resumeProducing()
+        else:
+            while not self.done:
+                p.resumeProducing()
+
+    def write(self, data):
+        self.chunks.append(bytes(data))
+
+    def unregisterProducer(self):
+        self.done = True
+
+
+def fresh_node(g, cap):
+    """A new ImmutableFileNode (no cached DownloadNode state) on client 0."""
+    from allmydata import uri
+    return g.client(0).nodemaker._create_immutable(uri.from_string(cap))
+
+
+def read_through(g, node, offset=0, size=None, timeout=20):
+    """(status, error class, chunks delivered) for node.read(consumer, offset, size)."""
+    rec = Recorder()
+    out = g.run(lambda: node.read(rec, offset, size), outcome=True, timeout=timeout)
+    return out.status, out.error, rec.chunks
+
+
+def judge(ctx, data, offset, size, status, err, chunks, case, what):
+    """The property itself: exact bytes or an error, and a correct prefix before an error."""
+    want = data[offset:] if size is None else data[offset:offset + size]
+    got = b"".join(chunks)
+    if status == "ok":
+        if got != want:
+            ctx.oracle_fail("download-returned-wrong-bytes:" + what,
+                            "read(%d, %r) completed with %d bytes that are not the uploaded bytes (first difference at %d)"
+                            % (offset, size, len(got), next((i for i in range(min(len(got), len(want))) if got[i] != want[i]), min(len(got), len(want)))),
+                            case=case, expected=want.hex(), observed=got.hex())
+            return False
+    else:
+        if want[:len(got)] != got:
+            ctx.oracle_fail("bytes-before-error-not-a-prefix:" + what,
+                            "read(%d, %r) ended with %s after delivering %d bytes that are not a prefix of the requested range" % (offset, size, err or status, len(got)),
+                            case=case, expected=want[:len(got)].hex(), observed=got.hex())
+            return False
+    return True
+
+
+def upload_file(g, data, conv=b"c02"):
+    cap = g.run(g.upload(data, convergence=conv))
+    shares = g.find_shares(cap)
+    raws = {s.shnum: g.read_share(s) for s in shares}
+    pay = {sn: split_container(r)[1] for sn, r in raws.items()}
+    gen = Genuine(cap, pay)
+    gen.finish(decode_segments(gen))
+    return cap, shares, raws, gen
+
+
+def set_payload(g, share, raw, payload):
+    head, _p, leases = split_container(raw)
+    g.write_share(share, join_container(head, payload, leases))
+
+
+# ---- single-field corruption: model classification vs implementation -----------------------------------
+def targeted_mutations(r, gen, shnum, payload):
+    """[(label, new payload)]: one damaged field each, chosen from every field class of the share."""
+    ver, fs, offs = parse_header(payload)
+    nnodes = 2 * pow2_ceil(gen.nseg) - 1
+    out = []
+
+    def flip(pos, label):
+        if 0 <= pos < len(payload):
+            b = bytearray(payload)
+            b[pos] ^= r.choice([1, 2, 0x80, 0xff])
+            out.append((label, bytes(b)))
+
+    def put(pos, new, label):
+        b = bytearray(payload)
+        b[pos:pos + len(new)] = new
+        out.append((label, bytes(b)))
+
+    flip(r.randrange(0, 4), "version")
+    flip(4 + r.randrange(0, fs), "header-block-size")
+    flip(4 + fs + r.randrange(0, fs), "header-data-size")
+    for f in FIELDS:
+        pos, fsz = offset_pos(ver, f)
+        flip(pos + fsz - 1, "offset:" + f)
+        delta = r.choice([-64, -34, -32, -1, 1, 32, 34, 64, 1000])
+        put(pos, struct.pack(">L" if fsz == 4 else ">Q", max(0, offs[f] + delta)), "offset:%s%+d" % (f, delta))
+    for j in range(gen.nseg):
+        ln = gen.sz["tail_block_size"] if j == gen.nseg - 1 else gen.sz["block_size"]
+        flip(offs["data"] + j * gen.sz["block_size"] + r.randrange(ln), "block:%d" % j)
+    flip(offs["plaintext_hash_tree"] + r.randrange(max(1, offs["crypttext_hash_tree"] - offs["plaintext_hash_tree"])), "unused-plaintext-hash-tree")
+    for i in range(nnodes):
+        flip(offs["crypttext_hash_tree"] + 32 * i + r.randrange(32), "crypttext-node:%d" % i)
+        flip(offs["block_hashes"] + 32 * i + r.randrange(32), "block-hash-node:%d" % i)
+    nch = (offs["uri_extension"] - offs["share_hashes"]) // 34
+    for i in range(nch):
+        flip(offs["share_hashes"] + 34 * i + r.randrange(2), "share-chain-number:%d" % i)
+        flip(offs["share_hashes"] + 34 * i + 2 + r.randrange(32), "share-chain-value:%d" % i)
+    flip(offs["uri_extension"] + r.randrange(fs), "ueb-length")
+    flip(offs["uri_extension"] + fs + r.randrange(len(gen.ueb_bytes)), "ueb-body")
+    for _ in range(3):
+        cut = r.choice([offs["data"], offs["data"] + 1, offs["plaintext_hash_tree"], offs["crypttext_hash_tree"] + 32, offs["block_hashes"],
+                        offs["block_hashes"] + 32 * r.randrange(nnodes), offs["share_hashes"], offs["share_hashes"] + 34,
+                        offs["uri_extension"], offs["uri_extension"] + fs, len(payload) - 1, r.randrange(offs["data"], len(payload))])
+        out.append(("truncate:%d" % cut, payload[:cut]))
+    return out
+
+
+def coq_plan(gen, offset, size, name, tries):
+    """Model side of one read: planned by C01's read_plan (guess = the downloader's default), served by
+    the validating pipeline from `tries`; result (number of chunks written, completed)."""
+    guess = div_ceil(min(gen.size, 1048576), gen.k) * gen.k
+    tr = T.lst(["(%s, %s, (fun _ : nat => @nil Z))" % (T.Z(sn), sh) for sn, sh in tries])
+    return ("(match read_plan %s %s %s %s %s with SegDone ws => "
+            "let r := sym_serve (table_dec %s_tbl) %s_cap (sym_node_init %s_cap) ws (fun _ => (%s, @nil Z)) in (N.of_nat (List.length (fst r)), snd r) "
+            "| _ => (999, false) end)" % (T.N(gen.size), T.N(gen.segsize), T.N(guess), T.N(offset), T.opt(T.N(size) if size is not None else None),
+                                         name, name, name, tr))
+
+
+def decode_table(name, gen, shnums):
+    """What the real decoder returns for the genuine blocks of `shnums` (sorted), per segment: the padded
+    segment (the oracle-side Genuine object checked them against the real zfec)."""
+    rows = []
+    for j in range(gen.nseg):
+        key = T.lst(["(%s, %s_blk %s %s)" % (T.N(i), name, T.Z(i), T.Z(j)) for i in shnums])
+        rows.append("(%s, %s_pseg %s)" % (key, name, T.Z(j)))
+    return "Definition %s_tbl : list (list (N * list N) * list N) := %s.\n" % (name, T.lst(rows))
+
+
+def coq_check_parallel(ctx, jobs, tag):
+    """jobs: [(preamble, terms)] evaluated concurrently (one coqc per job and shard); returns [[failing indices]]."""
+    import concurrent.futures
+
+    def one(ix):
+        pre, terms = jobs[ix]
+        return ctx.coq_check(IMPORTS, terms, preamble=pre, tag="%s%d" % (tag, ix), shard=40)
+    with concurrent.futures.ThreadPoolExecutor(max_workers=8) as ex:
+        return list(ex.map(one, range(len(jobs))))
+
+
+def classification(ctx):
+    from core import grid as G
+    ctx.correspondence("uploaded-share-vs-genuine-model")
+    ctx.correspondence("single-field-corruption-vs-model")
+    nfiles = ctx.n(5, 40)
+    per_file = ctx.n(24, 60)
+    jobs, infos = [], []
+    for fi in range(nfiles):
+        terms, info = [], []
+        r = ctx.rng("classify", fi)
+        k = r.choice([1, 1, 1, 2, 3])
+        n = r.choice([k, k + 1, k + 2, min(10, k + 5)])
+        mss = r.choice([16, 24, 33, 48, 64])
+        size = r.choice([56, 57, mss * 2, mss * 2 + 1, mss * 3 - 1, mss * 4, 150, 200])
+        size = max(56, min(size, 9 * mss))
+        data = bytes(r.getrandbits(8) for _ in range(size))
+        seed = r.getrandbits(30)
+        name = "F%d" % fi
+        with G.Grid(num_servers=n, k=k, n=n, happy=1, max_segment_size=mss, seed=seed, timeout=30) as g:
+            cap, shares, raws, gen = upload_file(g, data)
+            for p in gen.problems:
+                ctx.mismatch("uploaded-share-differs-from-recomputed-trees", p, case={"k": k, "n": n, "size": size, "max_segment_size": mss},
+                             correspondence="uploaded-share-vs-genuine-model")
+            namer = Namer(name, gen)
+            pre = preamble_for(name, gen)
+            # the uploader's shares, field by field, against the model's genuine share and UEB
+            for sh in shares:
+                view = field_view(gen.payloads[sh.shnum], gen)
+                o = view["offsets"]
+                terms.append("share_eqb (sym_g_share %s %s (mk_off %s) %s) %s" % (
+                    name, T.N(view["version"]), " ".join(T.N(o[f]) for f in FIELDS), T.Z(sh.shnum), coq_share(view, gen, name, namer)))
+                info.append(("uploaded-share-vs-genuine-model", {"file": fi, "shnum": sh.shnum, "k": k, "n": n, "size": size, "max_segment_size": mss}, None))
+            u = gen.ueb
+
+            def p3(s):
+                a, b, c = (int(x) for x in s.split(b"-"))
+                return "(Some (%s, %s, %s))" % (T.N(a), T.N(b), T.N(c))
+            terms.append("ueb_eqb (sym_g_ueb %s) (mkUeb %s %s %s %s %s %s (Some %s) (Some %s) (Some %s) (Some %s) (Some %s))" % (
+                name, T.N(u["segment_size"]), namer(u["crypttext_root_hash"]), namer(u["share_root_hash"]),
+                T.boolean(u.get("codec_name") == b"crs"), p3(u["codec_params"]), p3(u["tail_codec_params"]),
+                T.N(u["num_segments"]), T.N(u["size"]), T.N(u["needed_shares"]), T.N(u["total_shares"]), T.N(len(u["crypttext_hash"]))))
+            info.append(("uploaded-share-vs-genuine-model", {"file": fi, "ueb": True}, None))
+            ctx.case(None, kind="upload")
+            # exactly k shares remain: the target and k-1 intact ones
+            target = r.choice(shares)
+            others = [s for s in shares if s is not target]
+            r.shuffle(others)
+            keep = sorted([target] + others[:k - 1], key=lambda s: s.shnum)
+            for s in shares:
+                if s not in keep:
+                    g.delete_share(s)
+            pre += decode_table(name, gen, [s.shnum for s in keep])
+            muts = targeted_mutations(r, gen, target.shnum, gen.payloads[target.shnum])
+            r.shuffle(muts)
+            muts = [("intact", gen.payloads[target.shnum])] + muts[:per_file]
+            for label, newp in muts:
+                kind = label.split(":")[0]
+                # shared fields (UEB, share hash chain, crypttext hash tree, and the offsets that move them) are
+                # consumed from whichever share's answer arrives first: only k = 1 makes the outcome a function
+                # of the share contents
+                private = kind in ("intact", "version", "block", "block-hash-node", "header-block-size", "header-data-size", "unused-plaintext-hash-tree") \
+                    or label.startswith("offset:data") or label.startswith("offset:plaintext_hash_tree")
+                view = field_view(newp, gen)
+                below_header = view is None
+                set_payload(g, target, raws[target.shnum], newp)
+                sz = r.choice([None, None, None, 1, gen.segsize, gen.segsize + 1, size - 1])
+                node = fresh_node(g, cap)
+                status, err, chunks = read_through(g, node, 0, sz, timeout=(1.0 if below_header else 20))
+                case = {"file": fi, "k": k, "n": n, "size": size, "max_segment_size": mss, "seed": seed, "target_share": target.shnum,
+                        "kept_shares": [s.shnum for s in keep], "mutation": label, "read_size": sz, "data": data.hex()}
+                judge(ctx, data, 0, sz, status, err, chunks, case, "single-field:" + kind)
+                ctx.case((fi, label, sz) if label != "intact" else None, kind="single-field:" + kind)
+                if k == 1 or private:
+                    tries = [(s.shnum, coq_share(view if s is target else field_view(gen.payloads[s.shnum], gen), gen, name, namer)) for s in keep]
+                    ok = status == "ok"
+                    terms.append("(let r := %s in (fst r =? %s)%%N && Bool.eqb (snd r) %s)" % (
+                        coq_plan(gen, 0, sz, name, tries), T.N(len(chunks)), T.boolean(ok)))
+                    info.append(("single-field-corruption-vs-model", case, {"status": status, "error": err, "chunks": len(chunks)}))
+                if len(ctx.samples) < 4 and label != "intact":
+                    ctx.sample({"k": k, "n": n, "size": size, "mutation": label, "outcome": err or status, "chunks_before_end": len(chunks)})
+            set_payload(g, target, raws[target.shnum], gen.payloads[target.shnum])
+        jobs.append((pre, terms))
+        infos.append(info)
+    for info, terms, bad in zip(infos, [j[1] for j in jobs], coq_check_parallel(ctx, jobs, "c02cls")):
+        for ix in bad:
+            corr, case, obs = info[ix]
+            if corr == "uploaded-share-vs-genuine-model":
+                ctx.mismatch("genuine-share-model-differs", "the share the uploader wrote and Model/ImmVerify.v g_share / g_ueb differ", case=case, correspondence=corr)
+            else:
+                ctx.mismatch("corruption-class-differs:" + case["mutation"].split(":")[0],
+                             "download forced to use the damaged share: implementation %s after %d chunks; the model predicts otherwise" % (obs["error"] or obs["status"], obs["chunks"]),
+                             case=case, observed=obs, correspondence=corr)
+        ctx.trace(len(terms) - len(bad))
+
+
+# ---- adversarial shares, oracle only -----------------------------------------------------------------------
+class FixedKeyData(object):
+    """upload.Data with a caller-chosen encryption key: two encodings of one file under the same key (hence
+    the same storage index), the case DownloadNode._parse_and_store_UEB's comment describes."""
+
+    def __new__(cls, data, key):
+        from twisted.internet import defer
+        from allmydata.immutable import upload
+
+        class _D(upload.Data):
+            def get_encryption_key(self):
+                return defer.succeed(key)
+        return _D(data, convergence=b"")
+
+
+def random_ranges(r, size, segsize):
+    """(offset, size) pairs around segment boundaries; None size = to the end."""
+    pts = sorted(set([0, 1, segsize - 1, segsize, segsize + 1, 2 * segsize, size - 1, size, size // 2, r.randrange(size)]))
+    pts = [p for p in pts if 0 <= p <= size]
+    off = r.choice(pts)
+    ln = r.choice([None, 1, segsize, segsize + 1, size, r.randrange(1, size + 1), max(1, r.choice(pts) - off)])
+    return off, ln
+
+
+def damage_random_flips(r, g, shares, raws):
+    hit = r.sample(shares, r.randrange(1, len(shares) + 1))
+    desc = []
+    for s in hit:
+        raw = bytearray(raws[(s.server, s.shnum)])
+        lo = 0 if r.random() < 0.1 else 12            # now and then the container header / lease area too
+        for _ in range(r.choice([1, 1, 2, 5])):
+            pos = r.randrange(lo, len(raw))
+            raw[pos] ^= r.choice([1, 4, 0x80, 0xff])
+            desc.append((s.shnum, pos))
+        g.write_share(s, bytes(raw))
+    return "flips", desc
+
+
+def damage_truncate(r, g, shares, raws):
+    hit = r.sample(shares, r.randrange(1, len(shares) + 1))
+    desc = []
+    for s in hit:
+        head, pay, leases = split_container(raws[(s.server, s.shnum)])
+        hdr = parse_header(pay)
+        floor = 36 if hdr[0] == 1 else 68
+        cut = r.choice([floor, floor + 1, len(pay) - 1, len(pay) - 35, r.randrange(floor, len(pay)), r.randrange(floor, len(pay))])
+        cut = max(floor, cut)
+        g.write_share(s, join_container(head, pay[:cut], leases if r.random() < 0.7 else b""))
+        desc.append((s.shnum, cut))
+    return "truncate", desc
+
+
+def damage_renumber(r, g, shares, raws):
+    """Share files moved between share numbers of the same file."""
+    desc = []
+    for _ in range(r.randrange(1, len(shares) + 1)):
+        a, b = r.choice(shares), r.choice(shares)
+        if a.shnum != b.shnum:
+            g.write_share(b, raws[(a.server, a.shnum)])
+            desc.append((a.shnum, b.shnum))
+    return "renumber", desc
+
+
+def damage_field(r, g, shares, raws, gen):
+    hit = r.sample(shares, r.randrange(1, len(shares) + 1))
+    desc = []
+    for s in hit:
+        pay = split_container(raws[(s.server, s.shnum)])[1]
+        label, newp = r.choice(targeted_mutations(r, gen, s.shnum, pay))
+        set_payload(g, s, raws[(s.server, s.shnum)], newp)
+        desc.append((s.shnum, label))
+    return "fields", desc
+
+
+def changing_answers(r, nservers):
+    """Fault plan: some read answers of some servers are altered, the others are not."""
+    plan = []
+    for _ in range(r.randrange(1, 6)):
+        how = r.choice(["flip", "flip", "flip", "truncate", "empty"])
+        f = {"server": r.randrange(nservers), "method": "read", "nth": r.randrange(0, 8), "count": r.choice([1, 1, 2, None]),
+             "action": "corrupt", "how": how}
+        if how == "flip":
+            f["offset"] = r.randrange(0, 1500)
+            f["xor"] = r.choice([1, 0x80, 0xff])
+        elif how == "truncate":
+            f["length"] = r.randrange(0, 200)
+        plan.append(f)
+    return plan
+
+
+def adversarial(ctx):
+    from core import grid as G
+    n_cases = ctx.n(260, 3000)
+    for i in range(n_cases):
+        r = ctx.rng("adv", i)
+        k = r.choice([1, 1, 2, 2, 3, 3, 4, 5, 7, 10])
+        n = r.choice([x for x in [k, k + 1, k + 2, 2 * k, 10] if k <= x <= 10])
+        mss = r.choice([16, 21, 32, 40, 64, 100, 160])
+        size = r.choice([56, 57, mss - 1, mss, mss + 1, 2 * mss, 2 * mss + 1, 3 * mss - 1, 4 * mss, 5 * mss + 3, 200, 400])
+        size = max(56, min(size, 9 * mss, 420))
+        data = bytes(r.getrandbits(8) for _ in range(size))
+        nservers = r.choice([n, n, max(1, n // 2), n + 2])
+        seed = r.getrandbits(30)
+        scenario = r.choice(["flips", "flips", "fields", "fields", "truncate", "renumber", "other-file", "other-encoding", "changing-answers",
+                             "changing-answers", "mixed"])
+        case = {"i": i, "k": k, "n": n, "size": size, "max_segment_size": mss, "servers": nservers, "seed": seed, "scenario": scenario, "data": data.hex()}
+        with G.Grid(num_servers=nservers, k=k, n=n, happy=1, max_segment_size=mss, seed=seed, timeout=30) as g:
+            cap = g.run(g.upload(data, convergence=b"c02"))
+            shares = g.find_shares(cap)
+            raws = {(s.server, s.shnum): g.read_share(s) for s in shares}
+            desc = None
+            if scenario in ("flips", "mixed"):
+                desc = damage_random_flips(r, g, shares, raws)
+            if scenario == "truncate":
+                desc = damage_truncate(r, g, shares, raws)
+            if scenario == "renumber":
+                desc = damage_renumber(r, g, shares, raws)
+            if scenario == "fields":
+                pay = {s.shnum: split_container(raws[(s.server, s.shnum)])[1] for s in shares}
+                gen = Genuine(cap, pay)
+                desc = damage_field(r, g, shares, raws, gen)
+            if scenario == "other-file":
+                # shares of another file (same parameters, same length) dropped over some of this file's shares
+                other = bytes(r.getrandbits(8) for _ in range(size))
+                cap2 = g.run(g.upload(other, convergence=b"c02"))
+                sh2 = {(s.server, s.shnum): g.read_share(s) for s in g.find_shares(cap2)}
+                hit = r.sample(shares, r.randrange(1, len(shares) + 1))
+                d2 = []
+                for s in hit:
+                    src = sh2.get((s.server, s.shnum)) or r.choice(list(sh2.values()))
+                    g.write_share(s, src)
+                    d2.append(s.shnum)
+                desc = ("other-file", d2)
+            if scenario == "other-encoding":
+                # the same plaintext under the same key with another k/N or segment size: same storage index
+                key = bytes(r.getrandbits(8) for _ in range(16))
+                g.delete_shares(cap)
+                ur = g.run(g.upload_results(FixedKeyData(data, key)))
+                cap = ur.get_uri()
+                mine = {(s.server, s.shnum): g.read_share(s) for s in g.find_shares(cap)}
+                g.delete_shares(cap)
+                k2 = r.choice([k, max(1, k - 1), min(n, k + 1)])
+                mss2 = r.choice([mss, mss + k2, 2 * mss])
+                g.set_encoding(k=k2, n=n, happy=1, max_segment_size=mss2)
+                ur2 = g.run(g.upload_results(FixedKeyData(data, key)))
+                theirs = g.find_shares(ur2.get_uri())
+                # put some of the first encoding's shares back next to / over the second encoding's
+                back = r.sample(sorted(mine), r.randrange(1, len(mine) + 1))
+                import os
+                for (srv, shnum) in back:
+                    like = [s for s in theirs if s.server == srv]
+                    base = os.path.dirname(like[0].path) if like else os.path.dirname(theirs[0].path)
+                    with open(os.path.join(base, "%d" % shnum), "wb") as f:
+                        f.write(mine[(srv, shnum)])
+                desc = ("other-encoding", {"k2": k2, "mss2": mss2, "first_encoding_shares": sorted(s for _, s in back), "same_cap": cap == ur2.get_uri()})
+                case["second_cap_differs"] = cap != ur2.get_uri()
+            if scenario in ("changing-answers", "mixed"):
+                plan = changing_answers(r, nservers)
+                g.set_faults(plan)
+                desc = (scenario, [desc, plan]) if desc else ("changing-answers", plan)
+            case["damage"] = desc
+            node = fresh_node(g, cap)
+            reads = [(0, None)] if r.random() < 0.4 else [random_ranges(r, size, mss)]
+            if r.random() < 0.4:
+                reads.append(random_ranges(r, size, mss))      # a second read on the same node (cached hash trees, new blocks)
+            outcomes = []
+            for (off, ln) in reads:
+                status, err, chunks = read_through(g, node, off, ln, timeout=8)
+                outcomes.append(err or status)
+                judge(ctx, data, off, ln, status, err, chunks, dict(case, read=[off, ln]), scenario)
+            ctx.case((k, n, size, mss, repr(desc), tuple(reads)), kind="adversarial:%s:%s" % (scenario, "ok" if outcomes[-1] == "ok" else "refused"))
+            if i < 3:
+                ctx.sample({"k": k, "n": n, "size": size, "scenario": scenario, "reads": reads, "outcomes": outcomes})
+
+
+def run(ctx):
+    classification(ctx)
+    adversarial(ctx)
